@@ -95,5 +95,5 @@ func normalizeOffers(orig []string) (norm []string) {
 
 func normalizeOffer(orig string) string {
 	const maxParts = 2
-	return strings.SplitN(orig, ";", maxParts)[0]
+	return strings.TrimSpace(strings.SplitN(orig, ";", maxParts)[0])
 }
